@@ -297,7 +297,8 @@ def _numeric_witness(d):
 
 def _numeric_witness_inner(d):
     syms = sorted(d.free_symbols, key=lambda s: s.name)
-    vals = [sp.Rational(3, 2), sp.Rational(7, 3), sp.Integer(10), sp.Integer(1000), sp.Rational(1, 10), sp.Integer(100000), sp.Rational(1, 1000)]
+    # small values only: towers such as n**(h*n) with n = 1e5 keep a C-level big-number routine busy for minutes
+    vals = [sp.Rational(3, 2), sp.Rational(7, 3), sp.Integer(3), sp.Rational(5, 4), sp.Rational(1, 3), sp.Integer(2), sp.Rational(2, 5)]
     for k in range(len(vals) * 2):
         sub = {s: vals[(i + k) % len(vals)] for i, s in enumerate(syms)}
         try:
